@@ -5,7 +5,9 @@ import (
 )
 
 var tailPrefixes = []string{"", "", "", " ", " ", "\n", ";", "; ", " ;\n", " + ", " - ", " * ", "/", ", ", " | ", " & ", " || ", " && ",
-	".", "[", "(", " ? ", " : ", " = ", " ?? ", " == ", " < ", "  ", "\t", " ^ ", " % ", "d", "k", "kh", "a", "c", "m", "优势", "劣势", "min", "max", "..", "{", "{%", "`", "'", "\"", "\x1e", "&", "//", " // #EnableDice wod true\n"}
+	".", "[", "(", " ? ", " : ", " = ", " ?? ", " == ", " < ", "  ", "\t", " ^ ", " % ", "d", "k", "kh", "a", "c", "m", "优势", "劣势", "min", "max", "..", "{", "{%", "`", "'", "\"", "\x1e", "&", "//", " // #EnableDice wod true\n",
+	// blanks of the wider world that the grammar does not know: they start the rest text, whatever Unicode calls them
+	"\u3000", "\u3000 ", " \u3000", "\u00a0", "\u2003", "\ufeff", "\u0085", "\u2028", "\u3000\u3000攻击 "}
 
 var tailWords = []string{"攻击", "巨龙", "reason", "text", "for", "the", "roll", "力量", "检定", "hit", "it", "#", "@user", "。", "，", "!", "?", "~", "because", "1", "2d6", "(", ")"}
 
